@@ -580,6 +580,15 @@ func alterations(cl *cluster.Cluster, m, other *pbv1.QBFTConsensusMsg, n int) []
 		cp3 := cloneMsg(m)
 		cp3.Values = append(cp3.Values[:v:v], cp3.Values[v+1:]...)
 		out = append(out, alt{class: "value/dropped", msg: cp3})
+		cp5 := cloneMsg(m)
+		cp5.Values[v].Value = append(append([]byte(nil), cp5.Values[v].Value...), 0x7a, 0x03, 'e', 'x', 't') // field 15 (undefined), length-delimited
+		out = append(out, alt{class: "value/extended-with-undefined-field", msg: cp5})
+		cp6 := cloneMsg(m)
+		if n := len(cp6.Values[v].Value); n > 8 {
+			cp6.Values[v].Value = append([]byte(nil), cp6.Values[v].Value...)
+			cp6.Values[v].Value[n-3] ^= 0x01
+			out = append(out, alt{class: "value/raw-byte", msg: cp6})
+		}
 		cp4 := cloneMsg(m)
 		if len(cp4.Values[v].Value) > 2 {
 			cp4.Values[v].Value = cp4.Values[v].Value[:len(cp4.Values[v].Value)-2]
